@@ -33,13 +33,6 @@ Proof. intros n l x. unfold take_first. destruct (Z.leb n 0). auto. apply In_fir
 Lemma In_drop_skip : forall n l x, In x (drop_skip n l) -> In x l.
 Proof. intros n l x. unfold drop_skip. destruct (Z.leb n 0). auto. apply In_skipn'. Qed.
 
-Lemma result_eqv_map : forall (f g : row -> list val) l,
-  (forall r, In r l -> list_eqb val_eqv (f r) (g r) = true) -> result_eqv (map f l) (map g l) = true.
-Proof.
-  intros f g l. induction l as [|r t IH]; intros H. reflexivity.
-  unfold result_eqv in *. simpl. rewrite (H r (or_introl eq_refl)). simpl. apply IH. intros r' Hr. apply H. right. exact Hr.
-Qed.
-
 Lemma filters_fold : forall binds r out fs,
   is_true (fold_right (fun f acc => tv_and (filter_eval binds r out f) acc) (Some true) fs)
   = forallb (fun f => is_true (filter_eval binds r out f)) fs.
@@ -207,17 +200,16 @@ Proof.
 Qed.
 
 (* ---------- projection ---------- *)
-Lemma project_eqv : forall m binds r sel ss,
+Lemma project_eq : forall m binds r sel ss,
   Forall2 (fun sf s0 => ss_field s0 = sf_field sf /\ ss_name s0 = sel_name m sf /\
                         sdefault_ok binds (default_of m (sf_field sf)) (ss_default s0)) sel ss ->
   (forall sf b, In sf sel -> default_of m (sf_field sf) = Some (VBool b) -> nth (sf_field sf) r VNull <> VNull) ->
-  list_eqb val_eqv (map (fun sf => field_value m r (sf_field sf)) sel) (map (sel_value binds r) ss) = true.
+  map (sel_value binds r) ss = map (fun sf => field_value m r (sf_field sf)) sel.
 Proof.
   intros m binds r sel ss H. induction H as [|sf s0 sel ss (Hf & _ & Hd) Hrest IH]; intros Hb. reflexivity.
-  simpl. rewrite <- Hf. destruct (sel_value_sem m binds r s0) as [He _].
-  - rewrite Hf. exact Hd.
-  - intros b Hdb. rewrite Hf in *. eapply Hb; eauto. left. reflexivity.
-  - rewrite He. simpl. apply IH. intros sf' b Hin. apply Hb. right. exact Hin.
+  simpl. rewrite <- Hf. f_equal.
+  - apply sel_value_sem. rewrite Hf. exact Hd. intros b Hdb. rewrite Hf in *. eapply Hb; eauto. left. reflexivity.
+  - apply IH. intros sf' b Hin. apply Hb. right. exact Hin.
 Qed.
 
 Lemma run_sql_unfold : forall rows s binds ln lk,
@@ -275,7 +267,7 @@ Proof. intros before vo done todo vo' ds H Hn. destruct todo as [|ko t]. congrue
 
 Theorem T1_outside_known : forall m rows q ps,
   wf_query m q = true -> params_ok q ps = true -> known_query m rows q ps = [] ->
-  answer_ok (eval m rows q ps) (run_query m rows q ps) = true.
+  run_query m rows q ps = eval m rows q ps.
 Proof.
   intros m rows q ps Hwf Hpo Hk.
   unfold known_query in Hk.
@@ -448,10 +440,10 @@ Proof.
   { unfold ordered. apply isort_ext_in. intros a b Ha Hb'.
     apply (order_cmp_lex m q rows binds s HC1 Sord K3 K2); unfold matching in *; [apply filter_In in Ha | apply filter_In in Hb']; tauto. }
   rewrite Hsort.
-  unfold answer_ok. apply result_eqv_map. intros r Hr.
+  f_equal. apply map_ext_in. intros r Hr.
   apply In_take_first, In_drop_skip in Hr. unfold ordered in Hr.
   assert (Hrr : In r rows).
   { eapply Permutation_in in Hr; [|apply Permutation_sym; apply isort_perm]. unfold matching in Hr. apply filter_In in Hr. tauto. }
-  unfold project, json_object. apply project_eqv. exact HC1.
+  unfold project, json_object. apply project_eq. exact HC1.
   intros sf b Hin Hd. eapply bool_rows; eauto.
 Qed.
